@@ -207,6 +207,9 @@ func (acl *ACL) DeleteUser(_ context.Context, usernames []string) error {
 		if user == nil {
 			continue
 		}
+		// A deleted user can no longer act: commands that its connections have already sent (and that are
+		// still waiting in the connection's read buffer when the connection is cut below) are refused.
+		user.Enabled = false
 		// Terminate every connection attached to this user
 		for connRef, connection := range acl.Connections {
 			if connection.User.Username == user.Username {
